@@ -265,6 +265,7 @@ Proof.
   - pose proof (sim_ensure_cong true true a x y H) as H1.
     destruct (ft_read_cong a _ _ H1 (settled_ensure true a x) (settled_ensure true a y)) as (_&Hs&_).
     destruct (ft_read a (ensure true a x)), (ft_read a (ensure true a y)). exact Hs.
+  - destruct Hok.
 Qed.
 
 (* ---------- programs ---------- *)
